@@ -7,18 +7,20 @@ Open Scope Z_scope.
 Definition grant_key (g : grant) : Z * Z * Z := (g_grantee g, g_granter g, g_kind g).
 
 (* a delegated action requires an existing grant, never exceeds it, and reduces it by exactly the amount *)
-Theorem use_grant_spec gs grantee granter kind amount gs' :
-  use_grant gs grantee granter kind amount = Some gs' ->
+Theorem use_grant_spec now gs grantee granter kind amount gs' :
+  use_grant now gs grantee granter kind amount = Some gs' ->
   exists g, findb (grant_is grantee granter kind) gs = Some g /\ amount <= g_limit g /\
     ((g_limit g = amount /\ gs' = remb (grant_is grantee granter kind) gs) \/
-     (amount < g_limit g /\
+     (amount < g_limit g /\ (g_exp g < 0 \/ now < g_exp g) /\
       gs' = upd (grant_is grantee granter kind)
                 {| g_grantee := grantee; g_granter := granter; g_kind := kind; g_limit := g_limit g - amount; g_exp := g_exp g |} gs)).
 Proof.
   unfold use_grant. intros H.
   destruct (findb (grant_is grantee granter kind) gs) as [g|]; [|discriminate].
   destruct (g_limit g - amount <? 0) eqn:E1; [discriminate|]. apply Z.ltb_ge in E1.
-  destruct (g_limit g - amount =? 0) eqn:E2; inv H; exists g; (split; [reflexivity|split; [lia|]]).
-  - left. apply Z.eqb_eq in E2. split; [lia|reflexivity].
-  - right. apply Z.eqb_neq in E2. split; [lia|reflexivity].
+  destruct (g_limit g - amount =? 0) eqn:E2.
+  - inv H. exists g. split; [reflexivity|split; [lia|]]. left. apply Z.eqb_eq in E2. split; [lia|reflexivity].
+  - destruct ((0 <=? g_exp g) && (g_exp g <=? now)) eqn:E3; [discriminate|]. inv H. exists g. split; [reflexivity|split; [lia|]].
+    right. apply Z.eqb_neq in E2. split; [lia|]. split; [|reflexivity].
+    apply andb_false_iff in E3. destruct E3 as [E3|E3]; [left; apply Z.leb_gt in E3; lia|right; apply Z.leb_gt in E3; lia].
 Qed.
